@@ -290,6 +290,10 @@ fn strat_e2e(_t: Tier) -> BoxedStrategy<Case> {
         .boxed()
 }
 
+fn fuzz_case(c: Case) -> Case {
+    c
+}
+
 pub fn parts() -> Vec<Box<dyn PartDyn>> {
     vec![
         Box::new(Part::<Case> {
@@ -302,6 +306,7 @@ pub fn parts() -> Vec<Box<dyn PartDyn>> {
             enumerate: Some(enumerate_probe),
             shrink_budget: 2000,
             confirm_runs: 1,
+            fuzz: Some(fuzz_case),
         }),
         Box::new(Part::<Case> {
             name: "e2e",
@@ -313,6 +318,7 @@ pub fn parts() -> Vec<Box<dyn PartDyn>> {
             enumerate: None,
             shrink_budget: 100,
             confirm_runs: 2,
+            fuzz: None,
         }),
         Box::new(Part::<crate::checks::c17::Case> {
             name: "hb-timing",
@@ -324,6 +330,7 @@ pub fn parts() -> Vec<Box<dyn PartDyn>> {
             enumerate: None,
             shrink_budget: 0,
             confirm_runs: 2,
+            fuzz: None,
         }),
     ]
 }
